@@ -39,13 +39,33 @@ def read_src(rel: str) -> str:
     return _src_cache[rel]
 
 
+_facts: Optional[tuple] = None
+
+
+def _normal_facts() -> tuple:
+    """(NewType names, immutable NamedTuple fields) of the hand-written modules — inputs of the normal form (normalise.py)."""
+    global _facts
+    if _facts is None:
+        from . import localnames, normalise
+        mods = {}
+        for rel in localnames.FILES:
+            try:
+                mods[rel] = ast.parse(read_src(rel), filename=rel)
+            except (SyntaxError, OSError, AnalysisError):
+                continue
+        _facts = (normalise.newtype_names(mods), normalise.immutable_fields(mods))
+    return _facts
+
+
 def parse_py(rel: str) -> ast.Module:
     if rel not in _ast_cache:
         try:
             mod = ast.parse(read_src(rel), filename=rel)
         except SyntaxError as e:
             raise AnalysisError(f"{rel} does not parse: {e}")
-        from . import localnames
+        from . import localnames, normalise
+        if rel in localnames.FILES:
+            mod = normalise.normalise(mod, *_normal_facts())
         _ast_cache[rel] = localnames.canonicalise(rel, mod)
     return _ast_cache[rel]
 
